@@ -87,6 +87,7 @@ def check(prop, tier, seed):
     n = common.tier_n(tier)
     # long runs are where an in-place update of a surviving agent would rewrite the past
     items = common.choose_items(prop, tier, seed, n, select=lambda c: c["cfg"]["max_cycles"] >= 3, mode_fraction=0.05)
+    items += [{"v": k} for k in universe.boundary_indices()]
     pairs = common.run_campaign(rep, items, opts={"utils": True, "seed": seed})
     counters, opts_seen = common.collect(rep, prop, pairs, lambda o: o["outcome"] == "ok" and o["stats"].get("snap_agents", 0) > 0)
     rep.extra.update({"snapshot_agents_compared": counters["sum_snap_agents"], "utility_outputs_judged": counters["sum_utils_judged"],
